@@ -573,6 +573,23 @@ def check_generator(ctx, fi, G, counts, rows, method_p):
            'sampling mode must draw exactly `%s` values from range(len(counts)) with probability proportional to the counts '
            '(zero-count cells get probability 0), in random order; draws `%s`%s' % (rows, U(sample)[:140], note), construct='sampling mode of the column generator')
     # ---- rounding mode -------------------------------------------------------------------------------------------------------------
+    if isinstance(rnd, ast.Call) and U(rnd.func) in ('np.searchsorted', 'numpy.searchsorted') and len(rnd.args) == 2 and isinstance(rnd.args[0], ast.Call) \
+            and U(rnd.args[0].func) in ('np.cumsum', 'numpy.cumsum') and len(rnd.args[0].args) == 1:
+        # the shuffled repeat(arange(n), I) without materialising it: position s of a random permutation of range(sum I) holds the value v with
+        # cum[v-1] <= s < cum[v], which is searchsorted(cumsum(I), s, side='right')
+        slots = rnd.args[1]
+        if not (isinstance(slots, ast.Call) and U(slots.func).split('.')[-1] == 'permutation' and len(slots.args) == 1 and T(slots.args[0]) == rows):
+            raise AnalysisError('synthetic_data: rounding mode buckets `%s`, which is not a random permutation of range(%s)' % (U(slots)[:60], rows))
+        side = next((k.value for k in rnd.keywords if k.arg == 'side'), None)
+        ok_side = isinstance(side, ast.Constant) and side.value == 'right'
+        ctx.ob('count-conservation', fi, G, ok_side,
+               'rounding mode: position s holds the value v with cumsum[v-1] <= s < cumsum[v], i.e. searchsorted(cumsum, s, side=\'right\'); with the '
+               'default side=\'left\' position cumsum[v] - the first of cell v+1 - still counts for cell v, and position 0 goes to cell 0 even when its '
+               'count is 0: every cell boundary is off by one record; the source passes side=%s' % (U(side) if side is not None else '<default \'left\'>'),
+               construct='bucketing of the permuted positions')
+        I_ = rnd.args[0].args[0]
+        rnd = ast.parse('np.repeat(np.arange(%s.size), 0)' % counts, mode='eval').body
+        rnd.args[1] = I_
     if not (isinstance(rnd, ast.Call) and U(rnd.func) in ('np.repeat', 'numpy.repeat') and len(rnd.args) == 2):
         raise AnalysisError('synthetic_data: rounding mode does not return repeat(arange(n), integer counts): `%s`' % U(rnd)[:120])
     rng, I = rnd.args
